@@ -83,3 +83,75 @@ def run(chk, F, tier):
                   sample={"rule": "R27", "handler": h.split("::")[-1], "dispatch": "inline", "verdict": "ordered"})
     chk.explanation = ("Write-set analysis finds the mutators of open_file_texts, the call graph finds the handlers that reach "
                        "them, the dispatch coroutine's MIR tells inline await from tokio::spawn.")
+
+    # R27b: the text recorded for an open document is also the text handed to the analysis
+    import cfgutil
+    import dataflow
+    chk.rule("R27b", "in didOpen/didChange every path from recording the text (sync_open_file) to the end of the handler reaches "
+                     "update_file_by_uri, except through the workspace filter (a branch on get_file_id(..).is_some() / is_workspace_file(..))")
+    SYNC = WM + "::sync_open_file"
+    UPDATE = "emmylua_code_analysis::EmmyLuaAnalysis::update_file_by_uri"
+    FILTER_CALLS = ("WorkspaceManager::is_workspace_file", "Option::<T>::is_some")
+    nh = 0
+    for b in F.bodies.values():
+        if b.crate != LS or "::test" in b.id or not b.id.startswith(LS + "::handlers::text_document::text_document_handler::"):
+            continue
+        syncs = [bb for bb, c in b.calls() if name(c) == SYNC]
+        if not syncs:
+            continue
+        nh += 1
+        succ = b.succ_map()
+        upd = {bb for bb, c in b.calls() if name(c) == UPDATE}
+        key = "update-after-sync@%s" % b.id.split("::")[-2 if b.id.endswith("{closure#0}") else -1]
+
+        def filter_false_edge(bi):
+            """for a switch on (a negation of) the workspace-filter flag: the successor taken when the flag is false"""
+            t = b.blocks[bi][2]
+            if t[0] != "sw" or t[1][0] not in ("c", "m") or len(t[1][1]) != 1:
+                return None
+            l = t[1][1][0]
+            neg = False
+            for _ in range(4):
+                ds = dataflow.def_sites(b).get(l, [])
+                if len(ds) == 1 and ds[0][0] == "stmt" and ds[0][3][0] == "un" and ds[0][3][1] == "Not" and \
+                        ds[0][3][2][0] in ("c", "m") and len(ds[0][3][2][1]) == 1:
+                    neg = not neg
+                    l = ds[0][3][2][1][0]
+                    continue
+                if len(ds) == 1 and ds[0][0] == "stmt" and ds[0][3][0] == "use" and ds[0][3][1][0] in ("c", "m") and len(ds[0][3][1][1]) == 1:
+                    l = ds[0][3][1][1][0]
+                    continue
+                break
+            if "bool" != b.local_ty_str(l):
+                return None
+            rs = dataflow.roots(b, l)
+            if not rs:
+                return None
+            for r in rs:
+                if r[0] == "const":
+                    continue
+                if r[0] == "call" and name(b.blocks[r[1]][2][1]).endswith(FILTER_CALLS):
+                    continue
+                return None
+            flag_false_value = 1 if neg else 0     # value of the switched operand when the flag is false
+            tgt = [tb for v, tb in t[2] if v == flag_false_value]
+            return tgt[0] if tgt else t[3]
+
+        cut = {}
+        for bi in range(len(b.blocks)):
+            e = filter_false_edge(bi)
+            if e is not None:
+                cut[bi] = e
+        sub = [[y for y in v if not (k in cut and y == cut[k])] for k, v in enumerate(succ)]
+        wit = None
+        for s0 in syncs:
+            p = cfgutil.paths_avoiding(sub, s0, set(b.returns()), upd)
+            if p is not None:
+                wit = p
+        chk.check(wit is None and bool(upd), "R27b", key,
+                  "the handler records the document text (sync_open_file) and can then finish without update_file_by_uri on a path that "
+                  "is not the workspace filter: the open document is analysed with an older text (or not at all) although the editor sent a newer one",
+                  b.loc(), witness={"path_blocks": wit, "lines": sorted({b.blocks[x][2][1]["l"] for x in (wit or []) if b.blocks[x][2][0] == "call"})[:12],
+                                    "filter_branches": sorted(cut)},
+                  sample={"rule": "R27b", "handler": key, "filter_branches": len(cut), "verdict": "every non-filtered path updates the analysis"})
+    chk.floor("handlers recording document text", nh, 2)
